@@ -332,6 +332,20 @@ func c09R2(c *Ctx, p *Prog) {
 								if ce, ok := coloursLoad(v); ok && ce == (colourExpr{"STM", true}) {
 									found = true
 								}
+								// Colors[c] with c a colour parameter bound to STM.Flip() by a caller
+								if u, ok := stripConv(v).(*ssa.UnOp); ok && u.Op == token.MUL {
+									if ia, ok := u.X.(*ssa.IndexAddr); ok {
+										if fr, ok := asFieldAddr(ia.X); ok && fr.Name() == "Board.Colors" {
+											if par, ok := stripConv(ia.Index).(*ssa.Parameter); ok {
+												for _, bnd := range paramBindings(p, par, 0) {
+													if ce, ok := normColour(bnd); ok && ce == (colourExpr{"STM", true}) {
+														found = true
+													}
+												}
+											}
+										}
+									}
+								}
 							}
 						}
 					}
@@ -582,8 +596,8 @@ func init() {
 			Old: "\t\t\tif (attacks.RookMoves(sq, nocc) & ^me) != 0 {", New: "\t\t\tif (attacks.BishopMoves(sq, nocc) & ^me) != 0 {",
 			Expect: "C09.R1.PA2/board.(*Board).IsStalemate#BishopMoves"},
 		Mutant{Name: "C09.R2-knight-pin-forgets-lateral", Prop: "C09", File: "board/attacks.go", Quick: true,
-			Old: "\t\t\tif attacks.BishopMoves(kingSq, nocc)&(b.Pieces[Bishop]|b.Pieces[Queen])&opp != 0 {\n\t\t\t\tpinned = true\n\t\t\t} else if attacks.RookMoves(kingSq, nocc)&(b.Pieces[Rook]|b.Pieces[Queen])&opp != 0 {\n\t\t\t\tpinned = true\n\t\t\t}\n\t\t}\n\n\t\tif !pinned && (attacks.KnightMoves(sq)",
-			New: "\t\t\tif attacks.BishopMoves(kingSq, nocc)&(b.Pieces[Bishop]|b.Pieces[Queen])&opp != 0 {\n\t\t\t\tpinned = true\n\t\t\t}\n\t\t}\n\n\t\tif !pinned && (attacks.KnightMoves(sq)",
+			Old:    "\t\t\tif attacks.BishopMoves(kingSq, nocc)&(b.Pieces[Bishop]|b.Pieces[Queen])&opp != 0 {\n\t\t\t\tpinned = true\n\t\t\t} else if attacks.RookMoves(kingSq, nocc)&(b.Pieces[Rook]|b.Pieces[Queen])&opp != 0 {\n\t\t\t\tpinned = true\n\t\t\t}\n\t\t}\n\n\t\tif !pinned && (attacks.KnightMoves(sq)",
+			New:    "\t\t\tif attacks.BishopMoves(kingSq, nocc)&(b.Pieces[Bishop]|b.Pieces[Queen])&opp != 0 {\n\t\t\t\tpinned = true\n\t\t\t}\n\t\t}\n\n\t\tif !pinned && (attacks.KnightMoves(sq)",
 			Expect: "C09.R2/board.(*Board).IsStalemate#pinned"},
 		Mutant{Name: "C09.R2-blocker-pin-on-stale-occupancy", Prop: "C09", File: "board/attacks.go",
 			Old: "\t\t} else if attacks.RookMoves(kingSq, nocc)&(b.Pieces[Rook]|b.Pieces[Queen])&opp != 0 {\n\t\t\tpinned = true\n\t\t}\n\n\t\tif !pinned {\n\t\t\treturn false\n\t\t}\n\t}\n\n\treturn true\n}\n\n// IsStalemate", New: "\t\t} else if attacks.RookMoves(kingSq, occ)&(b.Pieces[Rook]|b.Pieces[Queen])&opp != 0 {\n\t\t\tpinned = true\n\t\t}\n\n\t\tif !pinned {\n\t\t\treturn false\n\t\t}\n\t}\n\n\treturn true\n}\n\n// IsStalemate",
@@ -750,6 +764,7 @@ func setOrigins(v ssa.Value) []ssa.Value {
 //   - defenders taken from Attackers(V, …) capture V: the enemy set of both ray tests excludes V;
 //   - a pawn capturing onto T = PawnCaptureMoves(piece) & enemy: the diagonal test (the only line a
 //     pawn-capture victim can share with the pawn) excludes T.
+//
 // Otherwise "capture the pinner / the checker" is judged illegal and a position with that single
 // legal move is called mate or stalemate.
 func c09R5(c *Ctx, p *Prog) {
